@@ -168,6 +168,25 @@ func TestC16(t *testing.T) {
 		if qf.Err != nil {
 			t.Fatalf("build: %v", qf.Err)
 		}
+		// now and then one more float column that holds one value in every row, written as a constant by Apply (a constant
+		// column is its own kind of storage; what it writes is still the shortest text of that value)
+		if rapid.IntRange(0, 4).Draw(t, "constcol") == 0 {
+			cclass := classMix
+			if cclass < 0 {
+				cclass = rng.Intn(14)
+			}
+			if v := c16Float(&rng, cclass); !math.IsNaN(v) {
+				qf = qf.Apply(qframe.Instruction{Fn: v, DstCol: "fconst"})
+				if qf.Err != nil {
+					t.Fatalf("Apply constant %v: %v", v, qf.Err)
+				}
+				fc := hx.Col{Name: "fconst", Kind: hx.KFloat, F: make([]float64, n)}
+				for r := range fc.F {
+					fc.F[r] = v
+				}
+				tab.Cols = append(tab.Cols, fc)
+			}
+		}
 		// a non-identity order now and then (the formatter must not care)
 		order := hx.Iota(n)
 		if rapid.Bool().Draw(t, "reverse") {
